@@ -160,7 +160,7 @@ func runList(dir string, focus string, env *execEnv, caseStr string) (res *Sx, v
 func init() {
 	families["list"] = family{
 		gen: func(r *Rng, id int, tier string) *Sx {
-			cfg := &genCfg{anp: r.P(55), banp: true, pods: true, namedOnIPPct: 8, maxNP: 4, maxWl: 5}
+			cfg := &genCfg{anp: r.P(55), banp: true, pods: true, sameName: r.P(25), namedOnIPPct: 8, maxNP: 4, maxWl: 5}
 			w := genWorld(r, cfg)
 			return Ls(At("wcase"), Ai(int64(id)), w.Sx(), Ls(At("list"), At("-")))
 		},
@@ -299,7 +299,7 @@ func checkFocusFilter(unf, foc *Sx, focus string) string {
 func init() {
 	families["focus"] = family{
 		gen: func(r *Rng, id int, tier string) *Sx {
-			cfg := &genCfg{anp: r.P(40), banp: true, pods: true, namedOnIPPct: 0, maxNP: 4, maxWl: 5}
+			cfg := &genCfg{anp: r.P(40), banp: true, pods: true, ingress: r.P(35), icName: true, namedOnIPPct: 0, maxNP: 4, maxWl: 5}
 			w := genWorld(r, cfg)
 			c := Ls(At("wcase"), Ai(int64(id)), w.Sx(), Ls(At("list"), At("-")))
 			seen := map[string]bool{}
@@ -331,8 +331,35 @@ func init() {
 			if r.P(30) {
 				add("ns0/nosuch")
 			}
-			if r.P(20) {
+			if r.P(35) {
 				add("ingress-controller")
+			}
+			// near misses: proper suffixes / prefixes of an existing name and of an existing namespace/name
+			var cands []string
+			for f := range seen {
+				cands = append(cands, f)
+			}
+			sort.Strings(cands) // map order must not reach the PRNG stream
+			for _, f := range cands {
+				if f == "-" || !r.P(25) {
+					continue
+				}
+				switch r.Intn(4) {
+				case 0:
+					if len(f) > 1 {
+						add(f[1:])
+					}
+				case 1:
+					if len(f) > 1 {
+						add(f[:len(f)-1])
+					}
+				case 2:
+					add("x" + f)
+				default:
+					if i := strings.Index(f, "/"); i > 1 {
+						add(f[i-1:]) // "0/w1" for ns0/w1
+					}
+				}
 			}
 			return c
 		},
@@ -357,7 +384,7 @@ func blockedPeers(ca *connlist.ConnlistAnalyzer) []string {
 func init() {
 	families["ingress"] = family{
 		gen: func(r *Rng, id int, tier string) *Sx {
-			cfg := &genCfg{anp: r.P(25), banp: true, pods: true, ingress: true, namedOnIPPct: 0, maxNP: 3, maxWl: 4}
+			cfg := &genCfg{anp: r.P(25), banp: true, pods: true, ingress: true, icName: r.P(30), icNs: true, namedOnIPPct: 0, maxNP: 3, maxWl: 4}
 			w := genWorld(r, cfg)
 			c := Ls(At("wcase"), Ai(int64(id)), w.Sx(), Ls(At("list"), At("-")))
 			if r.P(30) {
